@@ -93,6 +93,10 @@ class KeyValueExecutableSpec(ExecutableSpec):
             dict(self.key_value_pairs) == dict(other.key_value_pairs)
         )
 
+    def __hash__(self) -> int:
+        # Consistent with `__eq__`: the order of the key-value pairs does not matter.
+        return hash((self.executable_family, frozenset(self.key_value_pairs)))
+
 
 @dataclass(frozen=True)
 class BitstringsMeasurement:
